@@ -6,6 +6,7 @@ import re
 import reprlib
 import sys
 import textwrap
+import tokenize
 import uuid
 from typing import (
     Any,
@@ -254,6 +255,80 @@ class DecoratorInspection:
         self.node = node
 
 
+def _dedent_decorator_lines(decorator_lines: List[str]) -> str:
+    """
+    Remove the common indentation of the lines of a decorator so that they can be parsed on their own.
+
+    The comment-only lines are allowed to be indented arbitrarily (*e.g.*, a comment starting at the column 0
+    between an indented decorator and its function). They would prevent us from dedenting the decorator, so we
+    blank them out. (We keep the lines as such, since the positions in the text must not change.)
+
+    The lines which continue a multi-line string literal are neither taken for comments, nor considered for
+    the common indentation, nor changed: they are a part of the value of the literal.
+    """
+    # Indices of the lines which start inside a multi-line string literal
+    in_string = set()  # type: Set[int]
+
+    # All the lines but the first one are continuation lines of the call in parentheses (or comments), so the tokenizer
+    # does not care about their indentation once the first line is not indented.
+    probe_lines = list(decorator_lines)
+    if probe_lines:
+        probe_lines[0] = probe_lines[0].lstrip()
+
+    try:
+        readline = iter(probe_lines).__next__
+        depth_start = None  # type: Optional[int]
+        for token in tokenize.generate_tokens(readline):
+            if token.type == tokenize.STRING and token.end[0] > token.start[0]:
+                in_string.update(range(token.start[0], token.end[0]))
+            elif token.type == getattr(tokenize, "FSTRING_START", -1):
+                depth_start = token.start[0]
+            elif token.type == getattr(tokenize, "FSTRING_END", -1):
+                if depth_start is not None and token.end[0] > depth_start:
+                    in_string.update(range(depth_start, token.end[0]))
+                depth_start = None
+    except (tokenize.TokenError, IndentationError, SyntaxError, StopIteration):
+        # The text might end in the middle of a statement (the candidate end of the decorator is wrong).
+        # We go with what we found so far; the parsing decides.
+        pass
+
+    result = []  # type: List[str]
+    for i, line in enumerate(decorator_lines):
+        if i not in in_string and _COMMENT_ONLY_RE.match(line):
+            result.append("\n")
+        else:
+            result.append(line)
+
+    margin = None  # type: Optional[str]
+    for i, line in enumerate(result):
+        if i in in_string or line.strip() == "":
+            continue
+
+        indentation = line[: len(line) - len(line.lstrip())]
+        if margin is None:
+            margin = indentation
+        else:
+            # Keep the common prefix
+            common = 0
+            while (
+                common < len(margin)
+                and common < len(indentation)
+                and margin[common] == indentation[common]
+            ):
+                common += 1
+            margin = margin[:common]
+
+    if margin:
+        result = [
+            line[len(margin) :]
+            if i not in in_string and line.startswith(margin)
+            else line
+            for i, line in enumerate(result)
+        ]
+
+    return "".join(result)
+
+
 def inspect_decorator(
     lines: List[str], lineno: int, filename: str
 ) -> DecoratorInspection:
@@ -305,16 +380,9 @@ def inspect_decorator(
         decorator_end_lineno = i
         decorator_lines = lines[decorator_lineno:decorator_end_lineno]
 
-        # The comment-only lines are allowed to be indented arbitrarily (*e.g.*, a comment starting at the column 0
-        # between an indented decorator and its function). They would prevent us from dedenting the decorator, so we
-        # blank them out. (We keep the lines as such, since the positions in the text must not change.)
-        decorator_lines = [
-            "\n" if _COMMENT_ONLY_RE.match(line) else line for line in decorator_lines
-        ]
-
         # We need to dedent the decorator and add a dummy decorate so that we can parse its text as valid source code.
-        decorator_text = textwrap.dedent(
-            "".join(decorator_lines)
+        decorator_text = _dedent_decorator_lines(
+            decorator_lines=decorator_lines
         ) + "def dummy_{}(): pass".format(uuid.uuid4().hex)
 
         try:
